@@ -406,3 +406,112 @@ Proof.
         replace ((-256 <? x) && (x <? 256)) with true by lia; rewrite P3; reflexivity.
     + repeat split.
 Qed.
+
+(* ------------------------------------------------------------------------------------------ *)
+(* the other direction: whatever the Spec gives a meaning to is accepted *)
+Lemma sem_reg_enc r r' : sem_reg r = Some r' -> reg_val r = Ok r'.
+Proof. intros H. apply sem_reg_inv in H. destruct H as [-> H]. apply reg_val_complete. exact H. Qed.
+
+Ltac opt_inv H :=
+  match type of H with
+  | omap _ ?x = Some _ => let e := fresh "e" in destruct x eqn:e; cbn [omap] in H; [|discriminate]
+  | obind ?x _ = Some _ => let e := fresh "e" in destruct x eqn:e; cbn [obind] in H; [|discriminate]
+  end.
+
+Lemma enc_regmode_complete o addr k s rel : sem_rm o addr k = Some s -> exists v ext, enc_regmode o rel = Ok (v, ext).
+Proof.
+  destruct o; unfold sem_rm, enc_regmode; intros H;
+    try (opt_inv H; try opt_inv H;
+         repeat match goal with
+                | e : sem_reg _ = Some _ |- _ => apply sem_reg_enc in e; rewrite e; clear e
+                | e : val16 _ = Some _ |- _ => apply int16_complete in e; rewrite e; clear e
+                end; cbn [bind]; eauto; fail).
+  - eauto.
+  - eauto.
+  - discriminate.
+Qed.
+
+Lemma enc_stub_complete st c o addr k s :
+  shape st = Some c -> sem_operand c o addr k = Some s ->
+  exists v ext, enc_stub st o (addr + 2 + 2 * k) = Ok (v, ext).
+Proof.
+  intros Hs H. apply shape_cases in Hs. unfold enc_stub.
+  destruct Hs as [[K ->]|[[K ->]|[[K ->]|[[K [B ->]]|[[K [B [U ->]]]|[[K [B [U ->]]]|[[K [B [U ->]]]|[[K [B [U ->]]]|[K [B [U ->]]]]]]]]]]];
+    rewrite K; try rewrite B; try rewrite U; cbn [sem_operand] in H.
+  - destruct o; try discriminate. opt_inv H. apply sem_reg_enc in e. unfold enc_register. rewrite e. cbn [bind]. eauto.
+  - eapply enc_regmode_complete; eauto.
+  - unfold enc_fprm. destruct o; try (eapply enc_regmode_complete; eauto; fail).
+    + opt_inv H. pose proof e as e'. apply sem_reg_inv in e'. destruct e' as [-> R].
+      apply sem_reg_enc in e. rewrite e. cbn [bind].
+      destruct (r <=? 5) eqn:E; try discriminate. replace (r <? 6) with true by lia. eauto.
+    + destruct ((0 <=? n) && (n <=? 5)); try discriminate. eauto.
+  - unfold enc_fpacc. rewrite B. change (2 ^ 2) with 4. destruct o; try discriminate.
+    destruct ((0 <=? n) && (n <=? 3)) eqn:E; try discriminate.
+    replace ((0 <=? n) && (n <=? 5)) with true by lia. replace (n >=? 4) with false by lia. eauto.
+  - destruct o; try discriminate.
+    pose proof (enc_offset_branch t (addr + 2 + 2 * k)) as P.
+    replace (t - (addr + 2 * k + 2)) with (t - (addr + 2 + 2 * k)) in H by lia.
+    destruct (enc_offset false 8 t (addr + 2 + 2 * k)); cbn [bind]; eauto; try contradiction.
+    exfalso. apply P.
+    destruct (Z.even (t - (addr + 2 + 2 * k))); cbn [andb] in H; try discriminate.
+    destruct ((-256 <=? t - (addr + 2 + 2 * k)) && (t - (addr + 2 + 2 * k) <=? 254)) eqn:E; try discriminate. lia.
+  - destruct o; try discriminate.
+    pose proof (enc_offset_sob t (addr + 2 + 2 * k)) as P.
+    replace (t - (addr + 2 * k + 2)) with (t - (addr + 2 + 2 * k)) in H by lia.
+    destruct (enc_offset true 6 t (addr + 2 + 2 * k)); cbn [bind]; eauto; try contradiction.
+    exfalso. apply P.
+    destruct (Z.even (t - (addr + 2 + 2 * k))); cbn [andb] in H; try discriminate.
+    destruct ((-126 <=? t - (addr + 2 + 2 * k)) && (t - (addr + 2 + 2 * k) <=? 0)) eqn:E; try discriminate. lia.
+  - assert (exists x, (o = ORel x \/ o = OImm x) /\ (0 <=? x) && (x <? 2 ^ 3) = true) as [x [Ho Hx]].
+    { destruct o; try discriminate; eexists; (split; [eauto|]);
+        match type of H with (if ?c then _ else _) = _ => destruct c; [reflexivity|discriminate] end. }
+    pose proof (enc_imm_spec true 3 x ltac:(lia)) as P.
+    destruct Ho as [-> | ->]; destruct (enc_imm true 3 x); cbn [bind]; eauto; try contradiction; exfalso; apply P; lia.
+  - assert (exists x, (o = ORel x \/ o = OImm x) /\ (0 <=? x) && (x <? 2 ^ 6) = true) as [x [Ho Hx]].
+    { destruct o; try discriminate; eexists; (split; [eauto|]);
+        match type of H with (if ?c then _ else _) = _ => destruct c; [reflexivity|discriminate] end. }
+    pose proof (enc_imm_spec true 6 x ltac:(lia)) as P.
+    destruct Ho as [-> | ->]; destruct (enc_imm true 6 x); cbn [bind]; eauto; try contradiction; exfalso; apply P; lia.
+  - assert (exists x, (o = ORel x \/ o = OImm x) /\ (- 2 ^ 8 <? x) && (x <? 2 ^ 8) = true) as [x [Ho Hx]].
+    { destruct o; try discriminate; eexists; (split; [eauto|]);
+        match type of H with (if ?c then _ else _) = _ => destruct c; [reflexivity|discriminate] end. }
+    pose proof (enc_imm_spec false 8 x ltac:(lia)) as P.
+    destruct Ho as [-> | ->]; destruct (enc_imm false 8 x); cbn [bind]; eauto; try contradiction; exfalso; apply P; lia.
+Qed.
+
+(* ------------------------------------------------------------------------------------------ *)
+(* no Python exception anywhere in a well-shaped stub: the result is a value or a diagnostic *)
+Definition nc {A} (r : res A) : Prop := match r with Ok _ | Err _ => True | _ => False end.
+
+Lemma nc_bind {A B} (r : res A) (f : A -> res B) : nc r -> (forall a, nc (f a)) -> nc (bind r f).
+Proof. destruct r; simpl; auto. Qed.
+
+Lemma nc_reg_val r : nc (reg_val r).
+Proof. unfold reg_val. repeat match goal with |- context [if ?c then _ else _] => destruct c end; exact I. Qed.
+Lemma nc_int16 x : nc (int16 x).
+Proof. unfold int16. repeat match goal with |- context [if ?c then _ else _] => destruct c end; exact I. Qed.
+
+Lemma nc_enc_regmode o rel : nc (enc_regmode o rel).
+Proof.
+  destruct o; unfold enc_regmode;
+    repeat (apply nc_bind; [first [apply nc_reg_val | apply nc_int16]|intros]); exact I.
+Qed.
+
+Lemma nc_enc_offset u b t rel : nc (enc_offset u b t rel).
+Proof. unfold enc_offset. destruct (_ ++ _); exact I. Qed.
+Lemma nc_enc_imm u b x : nc (enc_imm u b x).
+Proof. unfold enc_imm. repeat match goal with |- context [if ?c then _ else _] => destruct c end; exact I. Qed.
+
+Lemma nc_enc_stub st o rel : nc (enc_stub st o rel).
+Proof.
+  unfold enc_stub. destruct (sk st).
+  - destruct o; try exact I. unfold enc_register. apply nc_bind; [apply nc_reg_val|intros; exact I].
+  - apply nc_enc_regmode.
+  - unfold enc_fprm. destruct o; try apply nc_enc_regmode.
+    + apply nc_bind; [apply nc_reg_val|intros]. destruct (_ <? _); exact I.
+    + destruct (_ && _); exact I.
+  - unfold enc_fpacc. destruct o; try exact I.
+    repeat match goal with |- context [if ?c then _ else _] => destruct c end; exact I.
+  - destruct o; try exact I. apply nc_bind; [apply nc_enc_offset|intros; exact I].
+  - destruct o; try exact I; (apply nc_bind; [apply nc_enc_imm|intros; exact I]).
+Qed.
